@@ -416,6 +416,26 @@ def asciiLower (b : Bytes) : Bytes := b.map (fun c => if 65 ≤ c.toNat && c.toN
 
 def lookup (t : List (Bytes × Bytes)) (k : Bytes) : Option Bytes := (t.find? (fun p => p.1 == k)).map (·.2)
 
+/-- the exact value of a numeric time literal: blanks trimmed, optional sign, decimal digits, inside int64 — what
+`strconv.ParseInt(dt, 10, 64)` reads and `time.Unix(0, v).UnixNano()` gives back (the last fallback of
+`parseLqlDateTime`: a number is unix nanoseconds, taken as it is written) -/
+def decimalInt (v : Bytes) : Option Int :=
+  let t := ((v.dropWhile (· == 32)).reverse.dropWhile (· == 32)).reverse
+  let (neg, ds) := match t with
+    | c :: r => if c == 45 then (true, r) else if c == 43 then (false, r) else (false, t)
+    | [] => (false, t)
+  if ds.isEmpty || !ds.all (fun c => 48 ≤ c.toNat && c.toNat ≤ 57) then none else
+  let n : Nat := ds.foldl (fun a c => a * 10 + (c.toNat - 48)) 0
+  let i : Int := if neg then -(n : Int) else n
+  if i < -(2^63) ∨ i ≥ 2^63 then none else some i
+
+/-- the environment reads numeric time literals exactly (tied to the code by the regenerated fact
+`Generated.C05.tsNumericFallback = "ParseInt(_,10,64);Unix(0,v)"` and checked for every literal by the harness) -/
+def NumericExact (env : Env) : Prop := ∀ v i, decimalInt v = some i → env.parseTs v = some i
+
+/-- the SPEC side of the driver: a numeric literal means its exact value, whatever the table says -/
+def exactEnv (env : Env) : Env := { env with parseTs := fun v => match decimalInt v with | some i => some i | none => env.parseTs v }
+
 /-- Go's `strings.ToUpper` / `strings.ToLower` on pure ASCII is the byte-wise mapping; for other strings the table
 (filled by the harness from the real functions) is consulted first. -/
 def tableEnv (ups los : List (Bytes × Bytes)) (tss : List (Bytes × Option Int)) : Env where
